@@ -77,7 +77,7 @@ def unitary(c, n):
     cc = Circuit(c.operations, n_qubits=n)
     return np.array(cc.to_unitary(), dtype=complex)
 
-def gen_term(rng, big=False):
+def gen_term(rng, big=False, zero_re=False):
     k = rng.choice([0, 1, 1, 2, 2, 3, 4]) if not big else rng.choice([1, 2, 3])
     pool = range(7 if not big else 4)
     if not big and rng.random() < 0.3:       # wide registers: indices beyond 7, where set iteration order is not ascending
@@ -87,6 +87,9 @@ def gen_term(rng, big=False):
     re = [rng.randint(-12, 12) or 1, rng.choice([1, 2, 4, 8])]
     r = rng.random()
     im = [0, 1] if r < 0.8 else ([rng.choice([1, -1]), 10 ** 10] if r < 0.87 else [rng.choice([1, -1, 2, -3]), rng.choice([1, 2, 1000])])
+    if zero_re and ops and rng.random() < 0.12:      # real part exactly 0: purely imaginary (must be rejected) or zero coefficient
+        re = [0, 1]
+        im = rng.choice([[1, 1], [-1, 2], [2, 1], [1, 1000], [0, 1], [1, 10 ** 10]])
     return dict(ops=ops, re=re, im=im)
 
 def gen_const(rng):
@@ -112,9 +115,9 @@ def gen(rng, tier):
         r = rng.random()
         t = [rng.randint(-20, 20), rng.choice([1, 2, 4, 8])]
         if r < 0.40:
-            yield dict(kind="term", term=gen_term(rng), t=t)
+            yield dict(kind="term", term=gen_term(rng, zero_re=True), t=t)
         elif r < 0.65:
-            terms = [gen_term(rng, big=True) for _ in range(rng.randint(1, 4))]
+            terms = [gen_term(rng, big=True, zero_re=True) for _ in range(rng.randint(1, 4))]
             if rng.random() < 0.2:
                 terms.insert(rng.randint(0, len(terms)), dict(rng.choice(terms)))
             terms = add_constants(rng, terms)
